@@ -59,3 +59,18 @@ package object
 //@ let fo = old(c.funcObj)
 //@ ensures[C10.adapter.result] uf("cf.has", bool, ctx) && uf("cf.err", error, fo) == nil ==> result == uf("cf.res", Object, fo)
 //@ ensures[C10.adapter.error] uf("cf.has", bool, ctx) && uf("cf.err", error, fo) != nil && typeof(uf("cf.err", error, fo)) != *Error ==> typeof(result) == *Error && ref(result) != nil && result.(*Error).err == uf("cf.err", error, fo)
+
+// C12: everything a script does to the OS goes through the OS the host supplied FOR THAT EVALUATION. os.stdin / stdout /
+// stderr are DynamicAttr members of the os module object: the value is resolved through a function of the context
+// (GetOS(ctx).Stdout()). What ResolveAttr answers has to be what that function answers for the context of this
+// access. It is, on first use ([C12.dyn.first]); afterwards the remembered value is answered whatever the context is
+// ([C12.dyn.percontext] - known finding KF-82: on a module object that serves several evaluations - Config.Globals()
+// passed on, a VM reused through WithVM - a later evaluation writes to the stream of the first one's OS. Not repaired:
+// resolving on every access creates a File and a goroutine per access, a keyed cache is a design decision).
+// (raf.res / raf.err only name the two results of the call of the resolver.)
+//@ func (*DynamicAttr).ResolveAttr
+//@ props C12
+//@ requires d != nil && ctx != nil
+//@ dynensures[raf.names] ResolveAttrFunc: result0 == uf("raf.res", Object, arg0) && result1 == uf("raf.err", error, arg0)
+//@ ensures[C12.dyn.first] old(d.value) == nil && result1 == nil ==> result0 == uf("raf.res", Object, ctx)
+//@ ensures[C12.dyn.percontext] result1 == nil ==> result0 == uf("raf.res", Object, ctx)
